@@ -19,7 +19,7 @@ PROPS = {
                 modes=("dev", "release"), design=["MC_Framing"]),
     "C04": dict(fams=[genfam("fuzz", "fuzz", 1, 1), genfam("chunk-long", "chunk", 1, 1, ["--mode", "long"]),
                       walkfam("inbound", "wake", 160, 2000), walkfam("cancel", "wake", 160, 2000)], modes=("dev", "release"), design=["MC_Phases"]),
-    "C05": dict(fams=[genfam("reasons", "reasons", 1, 1), walkfam("ops"), walkfam("mixed", "wake", 160, 3000), walkfam("ops", "sweep", 80, 1000), walkfam("quota", "wake", 160, 2000), walkfam("wakechunk", "wake", 160, 2000), genfam("earlyops", "earlyops", 1, 1), tlcfam("MC_Ops")], design=["MC_Ops"]),
+    "C05": dict(fams=[genfam("reasons", "reasons", 1, 1), walkfam("ops"), walkfam("mixed", "wake", 160, 3000), walkfam("ops", "sweep", 80, 1000), walkfam("quota", "wake", 160, 2000), walkfam("wakechunk", "wake", 160, 2000), walkfam("cancel", "wake", 240, 3000), genfam("earlyops", "earlyops", 1, 1), tlcfam("MC_Ops")], design=["MC_Ops"]),
     "C06": dict(fams=[genfam("reasons", "reasons", 1, 1), walkfam("ops"), walkfam("quota", "wake", 160, 3000), walkfam("wake", "wake", 160, 2000), tlcfam("MC_Ops")], design=["MC_Ops"]),
     "C07": dict(fams=[walkfam("inbound"), walkfam("mixed", "wake", 160, 3000), genfam("backlog", "backlog", 1, 1), genfam("manysids", "manysids", 1, 1), genfam("size", "size", 1, 1), genfam("endings", "endings", 1, 1), tlcfam("MC_Inbound")], design=["MC_Inbound"]),
     "C08": dict(fams=[walkfam("inbound"), walkfam("mixed", "wake", 160, 3000), walkfam("wakechunk", "wake", 240, 3000), genfam("reuse", "reuse", 1, 1), genfam("manysids", "manysids", 1, 1), genfam("crossid", "crossid", 1, 1), genfam("oneread", "oneread", 1, 1), tlcfam("MC_Inbound")], design=["MC_Inbound"]),
